@@ -125,9 +125,7 @@ def spec_call(ex, name, e, env):
         if key not in memo:
             memo[key] = zl.cnt_def(dom) + zl.cnt_lemmas(dom)
             ex.assumptions.add("lemma.cnt-diff (proved by z3 induction schema in vf/lemmas/z3lemmas.py): 0 <= cnt(a,j)-cnt(a,i) <= j-i")
-        for fact in memo[key]:
-            if not any(fact.eq(q) for q in ex.pc):
-                ex.pc.append(fact)
+        ex.fact(*memo[key])
         return zl.CNT(dom, i)
     if name == "lsum":
         h = ex.deref(ex.ev(e.args[0], env))
@@ -227,7 +225,7 @@ def builtin_call(ex, name, e, env):
             raise Unsupported("list() of non-scalar symbolic sequence")
         es = "real" if is_real(el) else ("bool" if is_bool(el) else "int")
         arr = fresh("list", z3.ArraySort(I, sort_of(es)))
-        ex.pc.append(z3.ForAll([t], z3.Implies(z3.And(0 <= t, t < s.n), z3.Select(arr, t) == el)))
+        ex.fact(z3.ForAll([t], z3.Implies(z3.And(0 <= t, t < s.n), z3.Select(arr, t) == el)))
         return ex.alloc(AList(s.n, arr, es))
     if name == "tuple":
         return tuple(ex.iter_concrete(A(0), e))
@@ -376,7 +374,7 @@ def sorted_model(ex, v, rev, node):
     q = fresh("iperm", z3.ArraySort(I, I))
     O = lambda i: z3.Select(out.arr, i)  # noqa: E731
     order = (O(t) >= O(u)) if rev else (O(t) <= O(u))
-    ex.pc += [
+    ex.facts += [
         z3.ForAll([t, u], z3.Implies(z3.And(0 <= t, t < u, u < s.n), order)),
         z3.ForAll([t], z3.Implies(z3.And(0 <= t, t < s.n),
                                   z3.And(0 <= z3.Select(p, t), z3.Select(p, t) < s.n,
@@ -444,8 +442,8 @@ def agg_model(ex, name, v, node):
     ex.assumptions.add(f"builtin.{name}: result is an element and bounds every element")
     cmp = (m <= z3.Select(h.arr, t)) if name == "min" else (m >= z3.Select(h.arr, t))
     w = fresh("w")
-    ex.pc += [z3.ForAll([t], z3.Implies(z3.And(0 <= t, t < h.len), cmp)),
-              0 <= w, w < h.len, z3.Select(h.arr, w) == m]
+    ex.fact(z3.ForAll([t], z3.Implies(z3.And(0 <= t, t < h.len), cmp)),
+            z3.Implies(h.len > 0, z3.And(0 <= w, w < h.len, z3.Select(h.arr, w) == m)))
     return m
 
 
@@ -465,9 +463,7 @@ def lsum(ex, arr, n, es="int"):
         memo[key] = [f(arr, 0) == zero,
                      z3.ForAll([t], z3.Implies(t >= 0, f(arr, t + 1) == f(arr, t) + z3.Select(arr, t)))]
         ex.assumptions.add("spec.lsum: defining recursion lsum(a,0)=0, lsum(a,t+1)=lsum(a,t)+a[t] (definition, conservative)")
-    for fact in memo[key]:
-        if not any(fact.eq(p) for p in ex.pc):
-            ex.pc.append(fact)
+    ex.fact(*memo[key])
     return f(arr, n)
 
 
@@ -480,9 +476,7 @@ def factorial_model(ex, n, node):
         return z3.IntVal(math.factorial(ns.as_long()))
     t = fresh("t")
     facts = [f(0) == 1, z3.ForAll([t], z3.Implies(t >= 0, z3.And(f(t + 1) == (t + 1) * f(t), f(t) >= 1)))]
-    for fact in facts:
-        if not any(fact.eq(p) for p in ex.pc):
-            ex.pc.append(fact)
+    ex.fact(*facts)
     return f(n)
 
 
@@ -541,7 +535,10 @@ def module_call(ex, qual, e, env):
             return ex.alloc(Mat(nr, nc, _arr2(ex, lambda i, j: z3.RealVal(0)), _arr2(ex, lambda i, j: z3.RealVal(0))))
         raise Unsupported("np.zeros shape")
     if qual in ("np.cos", "np.sin", "math.cos", "math.sin"):
-        return trig(ex, qual.split(".")[1], to_real(lift(A(0))))
+        a0 = A(0)
+        if isinstance(a0, tuple) and a0 and a0[0] == "arccos":
+            return trig(ex, qual.split(".")[1], a0)
+        return trig(ex, qual.split(".")[1], to_real(lift(a0)))
     if qual in ("np.arccos",):
         x = to_real(lift(A(0)))
         ex.require(z3.And(-1 <= x, x <= 1), "safe.arccos-domain", e)
@@ -563,7 +560,7 @@ def module_call(ex, qual, e, env):
         p10 = z3.Function("pow10", R, R)
         ex.assumptions.add("A1.pow10: 10**x is a positive strictly monotone function with 10**0=1; log10 its inverse")
         v = lg(x)
-        ex.pc += [p10(v) == x, z3.Implies(x == 1, v == 0), z3.Implies(x > 1, v > 0), z3.Implies(x < 1, v < 0)]
+        ex.fact(z3.Implies(x > 0, z3.And(p10(v) == x, z3.Implies(x == 1, v == 0), z3.Implies(x > 1, v > 0), z3.Implies(x < 1, v < 0))))
         return v
     if qual == "np.conj":
         v = lift(A(0))
@@ -574,7 +571,7 @@ def module_call(ex, qual, e, env):
     if qual in ("random.random", "np.random.random"):
         ex.assumptions.add("A4.random: random() returns a real in [0,1) (oracle stream; distribution is not modelled)")
         v = fresh("rnd", R)
-        ex.pc += [v >= 0, v < 1]
+        ex.fact(v >= 0, v < 1)
         ex.__dict__.setdefault("oracle", []).append(v)
         return v
     if qual == "random.seed":
@@ -597,9 +594,7 @@ def trig(ex, which, x):
     cf, sf = z3.Function("cos", R, R), z3.Function("sin", R, R)
     ex.assumptions.add("A1.trig: cos, sin are real functions with cos^2+sin^2=1, cos 0 = 1, sin 0 = 0; cos(arccos y)=y, sin(arccos y)=sqrt(1-y^2) on [-1,1]")
     c, s = cf(x), sf(x)
-    for fact in (c * c + s * s == 1, z3.Implies(x == 0, z3.And(c == 1, s == 0))):
-        if not any(fact.eq(p) for p in ex.pc):
-            ex.pc.append(fact)
+    ex.fact(c * c + s * s == 1, z3.Implies(x == 0, z3.And(c == 1, s == 0)))
     return c if which == "cos" else s
 
 
@@ -661,7 +656,7 @@ def list_method(ex, base, h, attr, args, kwargs, node):
             i = h.len - 1
         t = fresh("t")
         arr = fresh("popped", z3.ArraySort(I, sort_of(h.es)))
-        ex.pc.append(z3.ForAll([t], z3.And(
+        ex.fact(z3.ForAll([t], z3.And(
             z3.Implies(z3.And(0 <= t, t < i), z3.Select(arr, t) == z3.Select(h.arr, t)),
             z3.Implies(z3.And(i <= t, t < h.len - 1), z3.Select(arr, t) == z3.Select(h.arr, t + 1)))))
         v = z3.Select(h.arr, i)
@@ -676,8 +671,8 @@ def list_method(ex, base, h, attr, args, kwargs, node):
         ex.require(ex.contains(base, x, node), "safe.ValueError-index", node)
         w = fresh("idx")
         t = fresh("t")
-        ex.pc += [0 <= w, w < h.len, z3.Select(h.arr, w) == x,
-                  z3.ForAll([t], z3.Implies(z3.And(0 <= t, t < w), z3.Select(h.arr, t) != x))]
+        ex.fact(z3.Implies(ex.contains(base, x, node), z3.And(0 <= w, w < h.len, z3.Select(h.arr, w) == x,
+                                                              z3.ForAll([t], z3.Implies(z3.And(0 <= t, t < w), z3.Select(h.arr, t) != x)))))
         return w
     if attr == "count":
         raise Unsupported("list.count")
